@@ -91,7 +91,7 @@ CLAIMED.update({
 
 CLAIMED.update({
  "C02": dict(category="proof",
-   text="Per-priority ghost sequences gIn[p][0..gInN[p]) record every item received from the input registered under p (the receive is syntactically on inputs[p].Channel and p must be configured); the send hook on the output requires: an item is pending, it is delivered under the priority it was read under, it is the element just received, and its position is exactly gOutNP[p] (no gap, no duplicate, FIFO); a second receive while an item is pending is an obligation failure (a dropped item); between items and at close(output) / Complete every gOutNP[p] == gInN[p]. With Go channel FIFO semantics this is exactly-once, correctly tagged, in-order delivery of everything written before the inputs were closed. v1 under Stop/cancel: the weaker in-order, duplicate-free subsequence form. v1 Simple: a handler calls Handle exactly once for each received item before releasing it under its priority. Not covered: v2 simple package (see notes).",
+   text="Per-priority ghost sequences gIn[p][0..gInN[p]) record every item received from the input registered under p (the receive is syntactically on inputs[p].Channel and p must be configured); the send hook on the output requires: an item is pending, it is delivered under the priority it was read under, it is the element just received, and its position is exactly gOutNP[p] (no gap, no duplicate, FIFO); a second receive while an item is pending is an obligation failure (a dropped item); between items and at close(output) / Complete every gOutNP[p] == gInN[p]. With Go channel FIFO semantics this is exactly-once, correctly tagged, in-order delivery of everything written before the inputs were closed. v1 under Stop/cancel: the weaker in-order, duplicate-free subsequence form. v1 Simple and v2 simple: a handler holds one item at a time, calls Handle exactly once for the received item and releases it under its own priority only after Handle returned; v2 simple.main starts exactly HandlersQuantity handlers.",
    design_ref="DESIGN.md §7 C02",
    note=TB + "Go channel FIFO/exactly-once; release protocol as for C01.",
    technique=GH2),
